@@ -202,6 +202,8 @@ reg('C07', plan=plan_c07, level='proof', min_obligations=100,
     design_ref='DESIGN.md §5 C07')
 
 KP = ('src/yuv_rgb.rs', 'k_planes.rs', 'verif_kani_planes')
+KPW = ('src/lib.rs', 'k_pointwise.rs', 'verif_kani_pw')
+KT = ('src/yuv_rgb/transfer.rs', 'k_transfer.rs', 'verif_kani_transfer')
 def plan_c11(tier, seed):
     B = 'real v_frame planes (Plane::new / from_slice), concrete tiny geometry, symbolic contents'
     FX = B.replace('symbolic contents', 'FIXED pixel contents with pairwise distinct codes (content-independent index errors only)')
@@ -211,7 +213,16 @@ def plan_c11(tier, seed):
            H('dec_pointwise_420_4x2_u8', bounded=B, domain='12 symbolic u8 samples', desc='real ycbcr_to_ypbpr: pixel (x,y) from Y(x,y), U/V(x>>1,y>>1)')]
     if tier == 'thorough':
         hs += [H(f'enc_blocks_{g}', bounded=B, domain='all pixel components symbolic in [-0.25,1.25]', desc=f'same with symbolic contents ({d})') for g, d in geos]
-    return {'verus': [('u_dispatch', {}), ('u_xyb', {})], 'kani': [{'crate_dir': '', 'inject': [KP], 'harnesses': hs}]}
+    PW = 'public conversion API on a 5x1 / 1x5 image with FIXED pairwise different pixels, compared bit for bit with the 1x1 conversions of its pixels'
+    pw = [H('pw_lrgb_to_hsl_5x1_fixed', fixed=True, bounded=PW, domain='one fixed image', desc='LinearRgb -> Hsl loop: pointwise, dims kept'),
+          H('pw_hsl_to_lrgb_1x5_fixed', fixed=True, bounded=PW, domain='one fixed image', desc='Hsl -> LinearRgb loop: pointwise, dims kept'),
+          H('pw_rgb_to_lrgb_5x1_fixed', fixed=True, bounded=PW, domain='one fixed image', desc='Rgb -> LinearRgb: transfer flatten (sRGB) + primaries transform (BT.2020): pointwise, dims kept'),
+          H('pw_lrgb_to_rgb_1x5_fixed', fixed=True, bounded=PW, domain='one fixed image', desc='LinearRgb -> Rgb: primaries transform (P3) + transfer flatten (BT.1886): pointwise, dims kept')]
+    pw += [H(f'flatten_len_{n}', fixed=True, bounded=f'Vec length == {n}', domain=f'{n} pixels, concrete content', desc='from_raw_parts_mut flatten in bounds (pointer checks) and pointwise') for n in (1, 2, 3)]
+    if tier == 'thorough':
+        pw += [H('pw_lrgb_to_xyb_5x1_fixed', fixed=True, timeout=2400, bounded='optional (about 14 min; per-harness timeout): ' + PW, domain='one fixed image', desc='LinearRgb -> Xyb loop: pointwise, dims kept'),
+               H('pw_xyb_to_lrgb_1x5_fixed', fixed=True, timeout=2400, bounded='optional (per-harness timeout): ' + PW, domain='one fixed image', desc='Xyb -> LinearRgb loop: pointwise, dims kept')]
+    return {'verus': [('u_dispatch', {}), ('u_xyb', {})], 'kani': [{'crate_dir': '', 'inject': [KP, KPW, KT], 'harnesses': hs + pw}]}
 reg('C11', plan=plan_c11, level='proof', min_obligations=40,
     title='Conversions are pointwise, order-preserving and layout-independent',
     technique='Verus loop invariants: the output of each plane loop is stated as a function of origin-relative samples (row-major index map, chroma index (y>>ss_y, x>>ss_x)), for all geometries',
@@ -220,7 +231,9 @@ reg('C11', plan=plan_c11, level='proof', min_obligations=40,
          'whose luma plane is the pointwise quantisation of the input and whose every chroma sample (both planes) is the quantised chroma of a pixel INSIDE ITS OWN BLOCK (invariant over the last_uv_pos write-skipping: a skipped write always targets a block already reached); '
          'sources are borrowed immutably (frame condition by typing); results are spec functions of the inputs (determinism). '
          'The per-pixel loops of yuv_to_rgb, transform_primaries, LinearRgb<->Hsl are verified as in-place maps of one per-pixel function (index-loop form, same per-element expression); '
-         'every TryFrom/From body copies width and height through (contracts on all 18 conversion impls). the two XYB per-image functions are verified as per-pixel maps too (U-xyb, exact reals). The transfer flatten (from_raw_parts_mut) is covered only by the bounded Kani harness.',
+         'every TryFrom/From body copies width and height through (contracts on all 18 conversion impls). the two XYB per-image functions are verified as per-pixel maps too (U-xyb, exact reals). The transfer flatten (from_raw_parts_mut) is covered only by the bounded Kani harness. '
+         'BOUNDED side checks (never counted as proved): Kani runs the REAL ypbpr_to_ycbcr / ycbcr_to_ypbpr on real v_frame planes at concrete tiny geometries (4:2:2 4x1, 4:4:0 2x2; thorough: 4:2:0 4x2, 4:4:4 3x1 and symbolic contents) and asserts the statement directly; '
+         'these need no statement anchors and so still decide those geometries when a loop is restructured and the Verus invariants no longer attach.',
     note='Assumed: ' + '; '.join(PLANES_ASSUME) + '. ' + TOOLS,
     assumptions=PLANES_ASSUME,
     not_decided=['pointwise-ness of the from_raw_parts_mut flatten in transfer.rs (bounded Kani harness only)'],
@@ -242,7 +255,6 @@ reg('C12', plan=plan_c12, level='proof', min_obligations=40,
     assumptions=['R-anycut stub any_sample_exceeds', '64-bit target; subsampling shifts < 64; bit depth 8..16'],
     design_ref='DESIGN.md §5 C12')
 
-KT = ('src/yuv_rgb/transfer.rs', 'k_transfer.rs', 'verif_kani_transfer')
 CURVES = ['log100_oetf', 'log100_inverse_oetf', 'log316_oetf', 'log316_inverse_oetf', 'rec_1886_eotf', 'rec_1886_inverse_eotf',
           'rec_470m_oetf', 'rec_470m_inverse_oetf', 'rec_470bg_oetf', 'rec_470bg_inverse_oetf', 'rec_709_oetf', 'rec_709_inverse_oetf',
           'xvycc_eotf', 'xvycc_inverse_eotf', 'srgb_eotf', 'srgb_inverse_eotf', 'st_2084_inverse_oetf', 'st_2084_oetf',
